@@ -254,6 +254,20 @@ def foreign_events(ctx):
         corpus.append(('foreign signature: ' + label, 2, build.read_packets(pk)[0][1]))
     pk, _ = build.sig_packet(fk, 0x00, 'sha512', [], [], doc, created=1262304000, pad_mpi=2)
     corpus.append(('foreign rsa signature with padded MPI', 2, build.read_packets(pk)[0][1]))
+    # every subpacket type with every well-formed body class in the UNHASHED area (PGPy re-encodes that area from its typed objects:
+    # nothing but the length encoding may change)
+    from . import c05 as _c05
+    for t_ in range(0, 128):
+        if t_ == 32:
+            continue                      # embedded signatures: separate cases above
+        for cname_, body_ in _c05.bodies(t_, ctx.rng, True):
+            if body_ is None:
+                continue
+            try:
+                pk, _ = build.sig_packet(ek, 0x00, 'sha256', [], [build.subpacket(t_, body_)], doc, created=1262304000)
+            except ValueError:
+                continue
+            corpus.append(('foreign signature: unhashed subpacket type %d (%s)' % (t_, cname_.split('-')[0]), 2, build.read_packets(pk)[0][1]))
     img = open('/repo/tests/testdata/simple.jpg', 'rb').read()
     imgsp = build.sub_len(len(img) + 17) + b'\x01' + b'\x10\x00\x01\x01' + bytes(12) + img
     corpus.append(('user attribute with two image subpackets', 17, imgsp + imgsp))
